@@ -1037,7 +1037,12 @@ func (view *View) Fix(ctx context.Context, flags *option.Flags) error {
 		if err := NewGoroutineTaskManager(view.RecordLen(), -1, flags.CPU).Run(ctx, func(index int) error {
 			record := make(Record, fieldLen)
 			for j, idx := range view.selectFields {
-				record[j] = view.RecordSet[index][idx][:1]
+				if len(view.RecordSet[index][idx]) < 1 {
+					// A column of a group that has no record has no value.
+					record[j] = NewCell(value.NewNull())
+				} else {
+					record[j] = view.RecordSet[index][idx][:1]
+				}
 			}
 
 			if len(view.RecordSet[index]) < fieldLen {
